@@ -1,9 +1,12 @@
 package main
 
 import (
+	"encoding/json"
 	"flag"
 	"fmt"
 	"os"
+	"path/filepath"
+	"sort"
 	"strconv"
 )
 
@@ -11,8 +14,45 @@ var props = map[string]func(run *Run, n int){
 	"C01": propC01,
 }
 
+// recipes re-create one case from its recorded arguments (corpus files, replay files)
+var recipes = map[string]func(run *Run, args []string){}
+
 var quickN = map[string]int{"C01": 4000}
 var thoroughN = map[string]int{"C01": 150000}
+
+var repoDir = "/repo"
+
+type corpusFile struct {
+	Note   string `json:"note"`
+	Recipe Recipe `json:"recipe"`
+}
+
+func loadCorpus(run *Run, dir string) {
+	files, _ := filepath.Glob(filepath.Join(dir, run.Prop, "*.json"))
+	sort.Strings(files)
+	for _, f := range files {
+		b, err := os.ReadFile(f)
+		if err != nil {
+			continue
+		}
+		var cf corpusFile
+		if err := json.Unmarshal(b, &cf); err != nil {
+			run.Note("corpus file not readable: " + f)
+			continue
+		}
+		rf, ok := recipes[cf.Recipe.Name]
+		if !ok {
+			run.Note("corpus file with unknown recipe: " + f)
+			continue
+		}
+		before := len(run.cases)
+		rf(run, cf.Recipe.Args)
+		for i := before; i < len(run.cases); i++ {
+			run.cases[i].Desc["corpus"] = filepath.Base(f)
+		}
+		run.Count("corpus")
+	}
+}
 
 func main() {
 	prop := flag.String("prop", "", "property id")
@@ -22,7 +62,10 @@ func main() {
 	out := flag.String("out", "", "summary json path")
 	n := flag.Int("n", 0, "override number of cases")
 	replay := flag.String("replay", "", "replay a recorded finding (json file)")
+	corpus := flag.String("corpus", "", "corpus directory")
+	repo := flag.String("repo", "/repo", "repository under test")
 	flag.Parse()
+	repoDir = *repo
 	if *replay != "" {
 		os.Exit(doReplay(*replay, *driver))
 	}
@@ -44,16 +87,68 @@ func main() {
 		}
 	}
 	run := &Run{Prop: *prop, Tier: *tier, Seed: *seed, DriverBin: *driver, dist: map[string]int{}}
+	if *corpus != "" {
+		loadCorpus(run, *corpus)
+	}
 	f(run, cnt)
 	sum := run.Finish()
 	if err := writeJSON(*out, sum); err != nil {
 		fmt.Fprintln(os.Stderr, err)
 		os.Exit(3)
 	}
-	fmt.Printf("%s: %d cases, %d probes, %d distinct non-trivial, %d findings\n", *prop, sum.Evaluations, sum.Probes, sum.DistinctNontrivial, len(sum.Findings))
+	kinds := map[string]int{}
+	for _, fd := range sum.Findings {
+		kinds[fd.Class]++
+	}
+	fmt.Printf("%s %s seed=%d: %d cases, %d probes, %d distinct non-trivial, findings %v\n", *prop, *tier, *seed, sum.Evaluations, sum.Probes, sum.DistinctNontrivial, kinds)
 }
 
+// doReplay re-runs the recorded case of a replay file against the current build and prints both sides.
 func doReplay(path, driver string) int {
-	fmt.Println("replay not implemented yet")
-	return 3
+	b, err := os.ReadFile(path)
+	if err != nil {
+		fmt.Println(err)
+		return 3
+	}
+	var rp struct {
+		Property string  `json:"property"`
+		Finding  Finding `json:"finding"`
+		Mism     []Finding `json:"correspondence_mismatches"`
+		Recipe   *Recipe `json:"recipe"`
+	}
+	if err := json.Unmarshal(b, &rp); err != nil {
+		fmt.Println(err)
+		return 3
+	}
+	rec := rp.Finding.Case.Recipe
+	if rp.Recipe != nil {
+		rec = *rp.Recipe
+	}
+	if rec.Name == "" && len(rp.Mism) > 0 {
+		rec = rp.Mism[0].Case.Recipe
+	}
+	rf, ok := recipes[rec.Name]
+	if !ok {
+		fmt.Printf("replay file names no re-runnable case (recipe %q); it records a broken obligation:\n%s\n", rec.Name, string(b))
+		return 3
+	}
+	run := &Run{Prop: rp.Property, Tier: "replay", DriverBin: driver, dist: map[string]int{}}
+	rf(run, rec.Args)
+	sum := run.Finish()
+	for _, c := range run.cases {
+		js, _ := json.MarshalIndent(c, "", " ")
+		fmt.Println(string(js))
+	}
+	bad := 0
+	for _, fd := range sum.Findings {
+		fmt.Printf("FINDING %s %s %s\n", fd.Class, fd.KF, fd.Detail)
+		if fd.Class != "known-finding" {
+			bad++
+		}
+	}
+	if bad > 0 {
+		return 1
+	}
+	fmt.Println("replay: no violation on the current tree")
+	return 0
 }
